@@ -647,16 +647,85 @@ def _int_from_bytes(b, byteorder='big', *, signed=False):
     return builtins.int.from_bytes(b, byteorder, signed=signed)
 
 
+class SDec:
+    """float(<decimal text with symbolic digits>): an exact decimal num / 10**k.  Only comparisons are modelled; they agree with IEEE double comparison
+    because distinct decimals of at most 15 significant digits round to distinct doubles and rounding is monotone.  bool()/int() are modelled too."""
+    __slots__ = ('num', 'k')
+
+    def __init__(self, num, k):
+        self.num, self.k = num, k
+
+    def _pair(self, o):
+        if isinstance(o, SDec):
+            k = max(self.k, o.k)
+            return self.num * (10 ** (k - self.k)), o.num * (10 ** (k - o.k))
+        if isinstance(o, (builtins.int, SInt)) and not isinstance(o, builtins.bool):
+            return self.num, o * (10 ** self.k)
+        if isinstance(o, builtins.float):
+            from fractions import Fraction
+            fr = Fraction(repr(o))
+            if (fr * 10 ** 15).denominator != 1:
+                raise ZXError('SDec compared with a float of more than 15 decimals')
+            k = max(self.k, 15)
+            return self.num * (10 ** (k - self.k)), builtins.int(fr * 10 ** k)
+        raise ZXError('SDec compared with %s' % type(o).__name__)
+
+    def __lt__(self, o): a, b = self._pair(o); return a < b
+    def __le__(self, o): a, b = self._pair(o); return a <= b
+    def __gt__(self, o): a, b = self._pair(o); return a > b
+    def __ge__(self, o): a, b = self._pair(o); return a >= b
+
+    def __eq__(self, o):
+        if o is None:
+            return False
+        a, b = self._pair(o)
+        return a == b
+
+    def __ne__(self, o):
+        if o is None:
+            return True
+        a, b = self._pair(o)
+        return a != b
+    __hash__ = None
+
+    def __bool__(self):
+        return builtins.bool(self.num != 0)
+
+
+def z_float(x=0.0):
+    if isinstance(x, SStr):
+        els = x.els
+        dots = [i for i, c in enumerate(els) if isinstance(c, builtins.int) and c == 46]
+        sym = [c for c in els if not isinstance(c, builtins.int)]
+        conc_ok = all(48 <= c <= 57 or c == 46 for c in els if isinstance(c, builtins.int))
+        if conc_ok and len(dots) <= 1 and 0 < len(els) - len(dots) <= 15 and \
+           all(cur().witness(z3.Not(z3.And(z3.UGE(c, 48), z3.ULE(c, 57)))) is None for c in sym):
+            ip = els[:dots[0]] if dots else els
+            fp = els[dots[0] + 1:] if dots else []
+            if ip or fp:
+                num = (_z_int_fn(mkstr(ip)) if ip else 0) * (10 ** len(fp)) + (_z_int_fn(mkstr(fp)) if fp else 0)
+                return SDec(num, len(fp))
+        return builtins.float(concretize_str(x))
+    if isinstance(x, SInt):
+        return SDec(x, 0)
+    if isinstance(x, SDec):
+        return x
+    return builtins.float(x)
+
+
 _z_int_fn, _z_str_fn, _z_bytes_fn, _z_bytearray_fn = z_int, z_str, z_bytes, z_bytearray
 z_int = _TypeShim(_z_int_fn, builtins.int, {'from_bytes': _int_from_bytes})
 z_str = _TypeShim(_z_str_fn, builtins.str)
 z_bytes = _TypeShim(_z_bytes_fn, builtins.bytes)
 z_bytearray = _TypeShim(_z_bytearray_fn, builtins.bytearray)
-_UNSHIM = {z_int: int, z_str: str, z_bytes: bytes, z_bytearray: bytearray}
+_z_float_fn = z_float
+z_float = _TypeShim(_z_float_fn, builtins.float)
+_UNSHIM = {z_int: int, z_str: str, z_bytes: bytes, z_bytearray: bytearray, z_float: float}
+_TMAP[float] = (SDec,)
 
 BUILTIN_SHIMS = {
     'int': z_int, 'str': z_str, 'repr': z_repr, 'ord': z_ord, 'chr': z_chr, 'bin': z_bin, 'len': z_len,
-    'isinstance': z_isinstance, 'bytearray': z_bytearray, 'bytes': z_bytes, 'print': z_print, 'pow': z_pow,
+    'isinstance': z_isinstance, 'bytearray': z_bytearray, 'bytes': z_bytes, 'print': z_print, 'pow': z_pow, 'float': z_float,
 }
 
 
